@@ -91,7 +91,7 @@ def kwList (env : Spec.Env) (rec : Spec.Rec) (scope0 : List NodeId) (s : NodeId)
    Spec.kwAllOf (rec (scope0 ++ [s])) n j, Spec.kwAnyOf (rec (scope0 ++ [s])) n j,
    Spec.kwOneOf (rec (scope0 ++ [s])) n j, Spec.kwNot (rec (scope0 ++ [s])) n j,
    Spec.kwIf (rec (scope0 ++ [s])) n j, Spec.kwItems env (rec (scope0 ++ [s])) n j,
-   Spec.kwContains (rec (scope0 ++ [s])) n j, Spec.kwProps env (rec (scope0 ++ [s])) n j,
+   Spec.kwContains (rec (scope0 ++ [s])) (Spec.vocab env.draft n) j, Spec.kwProps env (rec (scope0 ++ [s])) n j,
    Spec.kwPropertyNames (rec (scope0 ++ [s])) n j, Spec.kwDependentSchemas env (rec (scope0 ++ [s])) n j]
 
 def assertsOf (env : Spec.Env) (n : Node) (j : Json) : Bool :=
@@ -106,8 +106,9 @@ def specBody (env : Spec.Env) (rec : Spec.Rec) (scope0 : List NodeId) (s : NodeI
     match Spec.sequence (kwList env rec scope0 s j n) with
     | none => none
     | some rs =>
-      specTail (Spec.conj rs) (assertsOf env n j) (Spec.kwUnevaluatedItems (rec (scope0 ++ [s])) n j)
-        (Spec.kwUnevaluatedProps (rec (scope0 ++ [s])) n j)
+      specTail (Spec.conj rs) (assertsOf env n j)
+        (Spec.kwUnevaluatedItems (rec (scope0 ++ [s])) (Spec.vocab env.draft n) j)
+        (Spec.kwUnevaluatedProps (rec (scope0 ++ [s])) (Spec.vocab env.draft n) j)
 
 theorem evalStep_unfold (env : Spec.Env) (rec : Spec.Rec) (scope0 : List NodeId) (s : NodeId) (j : Json) :
     Spec.evalStep env rec scope0 s j =
@@ -136,8 +137,8 @@ theorem evalStep_unfold (env : Spec.Env) (rec : Spec.Rec) (scope0 : List NodeId)
           dsimp only
           split
           · rfl
-          · cases Spec.kwUnevaluatedItems (rec (scope0 ++ [s])) n j ev0 <;>
-              cases Spec.kwUnevaluatedProps (rec (scope0 ++ [s])) n j ev0 <;> rfl
+          · cases Spec.kwUnevaluatedItems (rec (scope0 ++ [s])) (Spec.vocab env.draft n) j ev0 <;>
+              cases Spec.kwUnevaluatedProps (rec (scope0 ++ [s])) (Spec.vocab env.draft n) j ev0 <;> rfl
 
 theorem specBody_store (env : Spec.Env) (st : Store) (rec : Spec.Rec) (scope0 : List NodeId) (s : NodeId) (j : Json)
     (n : Node) : specBody { env with st := st } rec scope0 s j n = specBody env rec scope0 s j n := rfl
@@ -182,7 +183,7 @@ theorem specBody_sim (env : Spec.Env) {rec1 rec2 : Spec.Rec} (hrec : RecSim rec1
         (kwList env rec2 scope0 s j2 (withMaps n1 p pp d df ds dst dr dsc)) :=
       ⟨kwRef_sim hs hj hw env s n1, kwDynamicRef_sim hs hj hw env _ s n1, kwAllOf_sim hs hj hw n1,
        kwAnyOf_sim hs hj hw n1, kwOneOf_sim hs hj hw n1, kwNot_sim hs hj hw n1, kwIf_sim hs hj hw n1,
-       kwItems_sim hs hj hw env n1, kwContains_sim hs hj hw n1,
+       kwItems_sim hs hj hw env n1, kwContains_sim hs hj hw (Spec.vocab env.draft n1),
        kwProps_sim hs env n1 (withMaps n1 p pp d df ds dst dr dsc) hj hw h1.getD hnd h2.getD rfl,
        kwPropertyNames_sim hs hj hw n1,
        kwDependentSchemas_sim hs hj hw env n1 (withMaps n1 p pp d df ds dst dr dsc) h5.getD h8.getD, trivial⟩
@@ -200,8 +201,8 @@ theorem specBody_sim (env : Spec.Env) {rec1 rec2 : Spec.Rec} (hrec : RecSim rec1
     · exact hsq.elim
     · exact hsq.elim
     · exact specTail_sim (conj_sim (PR.of_all₂ hsq)) _
-        (fun e1 e2 he => kwUnevaluatedItems_sim hs hj hw n1 he)
-        (fun e1 e2 he => kwUnevaluatedProps_sim hs hj hw n1 he)
+        (fun e1 e2 he => kwUnevaluatedItems_sim hs hj hw (Spec.vocab env.draft n1) he)
+        (fun e1 e2 he => kwUnevaluatedProps_sim hs hj hw (Spec.vocab env.draft n1) he)
 
 /-- one step -/
 theorem evalStep_sim (env : Spec.Env) (st1 st2 : Store) (hst : permStore st1 st2) (hwf : StoreWF st1)
